@@ -300,7 +300,14 @@ func (k Keeper) ComputeConsumerNextValSet(
 	}
 
 	// need to use the bondedValidators, not activeValidators, here since the chain might be opt-in and allow inactive vals
-	nextValidators, err := k.ComputeNextValidators(ctx, consumerId, bondedValidators, powerShapingParameters, minPower)
+	candidateValidators := bondedValidators
+	if !powerShapingParameters.AllowInactiveVals {
+		// if inactive validators are not allowed, only the provider's active validators can validate; do not
+		// re-derive the active set by sorting on tokens because validators with equal voting power but
+		// different tokens could be ordered differently than in the provider's own consensus validator set
+		candidateValidators = activeValidators
+	}
+	nextValidators, err := k.ComputeNextValidators(ctx, consumerId, candidateValidators, powerShapingParameters, minPower)
 	if err != nil {
 		return []abci.ValidatorUpdate{},
 			fmt.Errorf("computing next validators, consumerId(%s), minPower(%d): %w", consumerId, minPower, err)
